@@ -1,9 +1,13 @@
 (* C15 — Invariant testing covers every bounded call sequence.
-   Statements only; every proof is `exact <lemma from Proofs/FrontierProofs.v>`.
+   Statements only; every proof is `exact <lemma from Proofs/FrontierProofs.v or Proofs/StateIdProofs.v>`.
    Gen/GenInvFilters.v (getter selectors, resolve_target_contracts, the sender restriction,
-   resolve_target_selectors) is regenerated from /repo/src/halmos/__main__.py on every run. *)
+   resolve_target_selectors) is regenerated from /repo/src/halmos/__main__.py on every run;
+   Gen/GenStateId.v (snapshot_state, the digest behind get_state_id) from cheatcodes.py and
+   Gen/GenStorageDigest.v (StorageData.digest) from sevm.py. *)
 From Coq Require Import String ZArith NArith List Bool.
 From HV Require Import Base.Keccak Model.SetOps Gen.GenInvFilters Spec.FrontierSpec Model.FrontierModel Proofs.FrontierProofs.
+From HV Require Import Spec.StateIdSpec Model.StateIdModel Gen.GenStorageDigest Gen.GenStateId Proofs.StateIdProofs.
+From HV Require Import Spec.PathSliceSpec Model.PathSliceModel Gen.GenPathSlice Proofs.PathSliceProofs.
 Import ListNotations.
 Open Scope Z_scope.
 
@@ -149,6 +153,144 @@ Theorem C15_pass_sound :
       inv_c cs = true.
 Proof. exact pass_sound. Qed.
 Print Assumptions C15_pass_sound.
+
+(* ------------------------------------------------------------------ state identity *)
+
+(* "States are merged only when they are identical."  For the state id as halmos computes it
+   (snapshot_state with include_path, StorageData.digest -- both regenerated from the source),
+   collision-free hashes and one storage layout: two sliced states with the same id have the same
+   balance term, code, storage terms AND the same constraints on state variables (the conditions
+   at the positions of the slice), for all states, any number of accounts / keys / conditions. *)
+Theorem C15_state_id_identical :
+  forall (D64 D128 : Type) (H64 : list (item D128) -> D64) (H128 : list Z -> D128),
+    (forall x y, H64 x = H64 y -> x = y) -> (forall x y, H128 x = H128 y -> x = y) ->
+    forall (n : nat) (a b : xstate) (i : list D64),
+      uniform_keys n a -> uniform_keys n b ->
+      snapshot_state H64 (storage_digest H128) true a = Some i ->
+      snapshot_state H64 (storage_digest H128) true b = Some i ->
+      x_balance a = x_balance b /\ x_code a = x_code b /\ storage_terms a = storage_terms b /\
+      (forall c, constraint_of a c <-> constraint_of b c).
+Proof. exact (@state_id_identical). Qed.
+Print Assumptions C15_state_id_identical.
+
+(* ... hence they stand for the same concrete states, whatever the meaning of terms and conditions *)
+Theorem C15_state_id_meaning :
+  forall (V val : Type) (ev : V -> Z -> val) (holds : V -> Z -> Prop) (a b : xstate),
+    (x_balance a = x_balance b /\ x_code a = x_code b /\ storage_terms a = storage_terms b /\
+     (forall c, constraint_of a c <-> constraint_of b c)) ->
+    forall w, represents V val ev holds a w <-> represents V val ev holds b w.
+Proof. exact same_identity_represents. Qed.
+Print Assumptions C15_state_id_meaning.
+
+(* conversely, identical states (the slice compared as a set) do get one id: revisits are recognised *)
+Theorem C15_state_id_complete :
+  forall (D64 D128 : Type) (H64 : list (item D128) -> D64) (H128 : list Z -> D128) (a b : xstate) (sa sb : list Z),
+    x_balance a = x_balance b -> x_code a = x_code b -> x_storage a = x_storage b ->
+    x_conds a = x_conds b -> x_sliced a = Some sa -> x_sliced b = Some sb ->
+    (forall i, In i sa <-> In i sb) ->
+    snapshot_state H64 (storage_digest H128) true a = snapshot_state H64 (storage_digest H128) true b /\
+    snapshot_state H64 (storage_digest H128) true a <> None.
+Proof. exact (@state_id_complete). Qed.
+Print Assumptions C15_state_id_complete.
+
+(* the two end states of  set(x) { s = x; if (x > 9) {} else {} }  (same storage term, the
+   conditions `x > 9` / `not (x > 9)` at the same position of the slice) get different ids *)
+Theorem C15_state_id_branch_conditions :
+  forall (D64 D128 : Type) (H64 : list (item D128) -> D64) (H128 : list Z -> D128),
+    (forall x y, H64 x = H64 y -> x = y) -> (forall x y, H128 x = H128 y -> x = y) ->
+    x_storage BranchInst.hi = x_storage BranchInst.lo /\ x_sliced BranchInst.hi = x_sliced BranchInst.lo /\
+    snapshot_state H64 (storage_digest H128) true BranchInst.hi <> snapshot_state H64 (storage_digest H128) true BranchInst.lo.
+Proof. exact branch_conditions_distinct. Qed.
+Print Assumptions C15_state_id_branch_conditions.
+
+(* C15_cover with the state id of halmos in place of an abstract one: the merge hypothesis
+   becomes "what a refreshed state stands for depends only on its balance / code / storage terms
+   and its constraints on state variables" (this is what fails for block fields, see below) *)
+Theorem C15_cover_snapshot :
+  forall (SS Tgt : Type) (targets : SS -> list Tgt) (sstep : SS -> Tgt -> list (outcome SS))
+         (refresh : SS -> SS -> SS) (setup : SS)
+         (CS Tx : Type) (cstep : CS -> Tx -> option CS) (adm : CS -> Tx -> Prop)
+         (gamma : SS -> CS -> Prop)
+         (D64 D128 : Type) (H64 : list (item D128) -> D64) (H128 : list Z -> D128)
+         (enc : option (list D64) -> Z) (view : SS -> xstate) (n : nat),
+    (forall x y, H64 x = H64 y -> x = y) -> (forall x y, H128 x = H128 y -> x = y) ->
+    (forall x y, enc x = enc y -> x = y) ->
+    (forall s, x_sliced (view s) <> None) -> (forall s, uniform_keys n (view s)) ->
+    (forall p a q b cs,
+        (x_balance (view a) = x_balance (view b) /\ x_code (view a) = x_code (view b) /\
+         storage_terms (view a) = storage_terms (view b) /\
+         (forall c, constraint_of (view a) c <-> constraint_of (view b) c)) ->
+        gamma (refresh q b) cs -> gamma (refresh p a) cs) ->
+    (forall ss cs tx cs', gamma ss cs -> adm cs tx -> cstep cs tx = Some cs' ->
+        exists t s', In t (targets ss) /\ In (OOk s') (sstep ss t) /\ gamma (refresh ss s') cs') ->
+    (forall q b cs,
+        (x_balance (view b) = x_balance (view setup) /\ x_code (view b) = x_code (view setup) /\
+         storage_terms (view b) = storage_terms (view setup) /\
+         (forall c, constraint_of (view b) c <-> constraint_of (view setup) c)) ->
+        gamma (refresh q b) cs -> gamma setup cs) ->
+    forall d cs0 txs cs,
+      gamma setup cs0 -> creach cstep adm cs0 txs cs -> (length txs <= d)%nat ->
+      exists j ss, (j <= length txs)%nat /\
+                   In ss (nth j (frontiers SS Tgt targets sstep
+                                   (fun s => enc (snapshot_state H64 (storage_digest H128) true (view s))) refresh setup d) []) /\
+                   In ss (evaluated SS Tgt targets sstep
+                                   (fun s => enc (snapshot_state H64 (storage_digest H128) true (view s))) refresh setup d) /\
+                   gamma ss cs.
+Proof. exact cover_snapshot. Qed.
+Print Assumptions C15_cover_snapshot.
+
+(* the hypotheses on the hashes are satisfiable (the identity), with states that are told apart *)
+Example C15_state_id_nonvacuous :
+  (forall x y : list (item (list Z)), (fun v => v) x = (fun v => v) y -> x = y) /\
+  uniform_keys 3 BranchInst.hi /\
+  snapshot_state (fun v => v) (storage_digest (fun v => v)) true BranchInst.hi =
+    Some [[W 1]; [W 10; W 77]; [W 10; Dg [0; 0; 0; 100]]; [W 200]] /\
+  snapshot_state (fun v => v) (storage_digest (fun v => v)) true BranchInst.lo =
+    Some [[W 1]; [W 10; W 77]; [W 10; Dg [0; 0; 0; 100]]; [W 201]] /\
+  snapshot_state (D64 := list (item (list Z))) (fun v => v) (storage_digest (fun v => v)) true (mkX 1 [] [] [] None) = None.
+Proof.
+  split; [intros x y E; exact E |]. split; [| repeat split; reflexivity].
+  intros addr st k v I1 I2. destruct I1 as [I1 | []]. injection I1 as _ I1. subst st.
+  destruct I2 as [I2 | []]. injection I2 as I2 _. subst k. reflexivity.
+Qed.
+
+(* ------------------------------------------------------------------ the slice: which conditions are constraints on the state *)
+
+(* Path._get_related, the dependency update of Path.append and Path.slice are regenerated from
+   sevm.py.  For every path (any number of conditions, any variable sets) and every set of state
+   variables, the slice is EXACTLY the backward dependency closure of the state variables: the
+   conditions that mention a state variable, and the EARLIER conditions sharing a variable with a
+   condition of the slice. *)
+Theorem C15_slice_exact :
+  forall (vs : list (list Z)) (S : list Z) (i : nat),
+    In i (p_slice (p_build vs) S) <-> constrains_back vs S i.
+Proof. exact slice_exact. Qed.
+Print Assumptions C15_slice_exact.
+
+Theorem C15_slice_direct :
+  forall (vs : list (list Z)) (S : list Z) (i : nat),
+    (i < length vs)%nat -> (exists v, In v (nth i vs []) /\ In v S) -> In i (p_slice (p_build vs) S).
+Proof. exact slice_direct. Qed.
+Print Assumptions C15_slice_direct.
+
+Theorem C15_slice_backward :
+  forall (vs : list (list Z)) (S : list Z) (i j : nat),
+    In j (p_slice (p_build vs) S) -> (i < j)%nat ->
+    (exists v, In v (nth i vs []) /\ In v (nth j vs [])) -> In i (p_slice (p_build vs) S).
+Proof. exact slice_backward. Qed.
+Print Assumptions C15_slice_backward.
+
+(* The constraints on the state (Spec/PathSliceSpec.v constrains: dependency in EITHER order) are
+   not all in the slice.  set(x) payable { s = x; require(x == msg.value); if (msg.value > 9) {} else {} }:
+   condition 1 (`msg.value > 9`) constrains the stored x through condition 0 (`x == msg.value`), the
+   slice is {0}.  The two end states then have the same state id (C15_state_id_complete) although
+   they stand for different concrete states: one is dropped (reproduced end to end: known finding). *)
+Theorem C15_slice_closure_refuted :
+  constrains ForwardInst.vs ForwardInst.S 1 /\
+  p_slice (p_build ForwardInst.vs) ForwardInst.S = [O] /\
+  ~ In 1%nat (p_slice (p_build ForwardInst.vs) ForwardInst.S).
+Proof. exact slice_forward_refuted. Qed.
+Print Assumptions C15_slice_closure_refuted.
 
 (* ------------------------------------------------------------------ the merge hypothesis is necessary *)
 
